@@ -111,9 +111,12 @@ Section Phase1.
     destruct (phase2_status _ _ _ _ _ _ _ _ _ _ E2) as [Hst2 Hlen2].
     assert (Lb1 : length bas1 = m) by (apply (A_lb N m (t_rows T0) basis0 rows1 obj1 bas1 arts Hinv)).
     assert (Harts : arts = seq N a) by (apply (A_arts N m (t_rows T0) basis0 rows1 obj1 bas1 arts Hinv)).
-    destruct (Qltb (snd (t_obj T2)) (- 0)) eqn:Einf.
+    (* the code's threshold  eps * max(1, total initial infeasibility)  is 0 for eps = 0 *)
+    set (tol := 0 * (if Qltb 1 (- snd aux) then - snd aux else 1)) in *.
+    assert (Htol : tol == 0) by (unfold tol; ring).
+    destruct (Qltb (snd (t_obj T2)) (- tol)) eqn:Einf.
     - (* the auxiliary optimum is positive *)
-      apply Qltb_lt in Einf. inversion H; subst st iters T1 basis1 piv1. clear H.
+      apply Qltb_lt in Einf. rewrite Htol in Einf. inversion H; subst st iters T1 basis1 piv1. clear H.
       split; [destruct st2; discriminate|]. split; [destruct st2; discriminate|].
       intros Hst v Lv Hv Hsat.
       pose proof (T1_embed N m (t_rows T0) basis0 Hrows0 Hm Hb0 Hlt0 rows1 obj1 bas1 arts Hinv v Lv Hsat) as Hemb.
@@ -132,7 +135,7 @@ Section Phase1.
         pose proof (T1_obj_nonneg N m (t_rows T0) basis0 Hrows0 Hm Hb0 rows1 obj1 bas1 arts Hinv w z) as Hnn.
         fold a in Hnn. fold aux in Hnn. fold Tx in Hnn. specialize (Hnn Hws Hwn). lra.
     - (* artificials are zero: drive them out, drop their columns, restore the objective *)
-      apply Qltb_false in Einf.
+      apply Qltb_false in Einf. rewrite Htol in Einf.
       destruct (drive_out 0 arts N m 0 (T2, basis2, piv2)) as [[T3 basis3] piv3] eqn:E3.
       inversion H; subst st iters T1 basis1 piv1. clear H.
       split; [discriminate|]. split; [|discriminate]. intros _.
